@@ -30,8 +30,12 @@ func verifBareLB(strategy int) *LoadBalancer {
 	}
 }
 
+// verifPorts: the backends of a pool live on one host and differ in their port,
+// like the backends of the shipped sample configuration (localhost:8081, :8082, ...).
+var verifPorts = []string{"8081", "8082", "8083", "8084", "8085", "8086", "8087", "8088", "8089", "8090", "8091", "8092", "8093", "8094", "8095", "8096"}
+
 func verifBackend(i int) *Backend {
-	return &Backend{Name: verifNames[i], URL: &url.URL{Scheme: "http", Host: verifNames[i] + ":80"}, IsHealthy: true, Weight: 1}
+	return &Backend{Name: verifNames[i], URL: &url.URL{Scheme: "http", Host: "127.0.0.1:" + verifPorts[i]}, IsHealthy: true, Weight: 1}
 }
 
 // verifArbHealth gives a backend an arbitrary health state: flag, and a window
@@ -73,8 +77,7 @@ func verifPool(lb *LoadBalancer, strategy, n int, arbHealth bool) []*Backend {
 	}
 	switch s := lb.strategy.(type) {
 	case *RoundRobinStrategy:
-		s.current = verifrt.Uint64("rotation")
-		verifrt.Assume(s.current < 1<<63)
+		verifSetRotation(&s.current)
 	case *WeightedRoundRobinStrategy:
 		for _, wb := range s.backends {
 			wb.currentWeight = verifrt.IntRange("currentWeight", -(1 << 20), 1<<20)
@@ -245,3 +248,34 @@ func verifHit(name string) {
 var verifServerCtx = func(r *http.Request) *http.Request { return r }
 
 func verifLimiterCleanup(rl *ratelimiter.TokenBucketRateLimiter) { ratelimiter.VerifCleanup(rl) }
+
+// verifSetRotation puts the round-robin cursor at an arbitrary reachable
+// position, whatever integer type the strategy keeps it in. A 64-bit cursor
+// cannot reach 2^63 (that many requests never happen); a 32-bit one wraps after
+// 2^32 requests - days of traffic - so every value of it is reachable,
+// including the ones next to the wrap-around.
+func verifSetRotation(p any) {
+	v := verifrt.Uint64("rotation")
+	switch q := p.(type) {
+	case *uint64:
+		verifrt.Assume(v < 1<<63)
+		*q = v
+	case *int64:
+		verifrt.Assume(v < 1<<62)
+		*q = int64(v)
+	case *uint:
+		verifrt.Assume(v < 1<<63)
+		*q = uint(v)
+	case *int:
+		verifrt.Assume(v < 1<<62)
+		*q = int(v)
+	case *uint32:
+		verifrt.Assume(v < 1<<32)
+		*q = uint32(v)
+	case *int32:
+		verifrt.Assume(v < 1<<31)
+		*q = int32(v)
+	default:
+		panic("verif harness: unknown type of the round-robin cursor")
+	}
+}
